@@ -224,3 +224,29 @@ pub fn through_wrapper<'a>(m: &'a Model, f: &'a crate::model::FnInfo) -> &'a cra
     }
     cur
 }
+
+/// Takes over one rule family of another property: the other property's rules are run in a throwaway context, and what they
+/// report under `from_rule` (known findings of that property aside) is reported here under `to_rule`. Used where one defect
+/// breaks clauses of two properties and the deciding analysis lives with the other one.
+pub fn borrow(ctx: &mut Ctx, source_property: &str, from_rule: &str, to_rule: &str, run: &mut dyn FnMut(&mut Ctx)) {
+    borrow_where(ctx, source_property, from_rule, to_rule, "", run)
+}
+
+/// `borrow`, restricted to reports whose key or file mentions `about` (e.g. one lexer module)
+pub fn borrow_where(ctx: &mut Ctx, source_property: &str, from_rule: &str, to_rule: &str, about: &str, run: &mut dyn FnMut(&mut Ctx)) {
+    let mut sub = Ctx::new(source_property, "quick", &ctx.verif);
+    run(&mut sub);
+    let known = crate::report::load_known(&ctx.verif, source_property);
+    let n = sub.obligations.get(from_rule).map(|(n, _)| *n).unwrap_or(0);
+    if n == 0 {
+        ctx.fail_closed(to_rule, &format!("the borrowed rule {} examined nothing", from_rule));
+        return;
+    }
+    ctx.oblige(to_rule, &format!("borrowed:{}", from_rule), true);
+    for v in sub.violations.iter().filter(|v| v.rule == from_rule && (about.is_empty() || v.key.contains(about) || v.file.contains(about))) {
+        if known.contains_key(&format!("{}:{}", v.rule, v.key)) {
+            continue;
+        }
+        ctx.violate(to_rule, &v.key, &v.file, v.line, &v.msg);
+    }
+}
